@@ -1160,6 +1160,26 @@ func (m *Model) applyNack(c Call, o Obs) []Hit {
 		if d.State != Outstanding {
 			continue
 		}
+		if !s.Live {
+			// a nack for a delivery of a DELETED subscription: its rows may or may not have
+			// been reclaimed already, and no property says what such a nack does (C01 / C06
+			// stop at "the subscription is deleted") - neither a forward nor its absence
+			// is demanded
+			if m.hasDL(s) && d.Attempts >= s.Cfg.MaxAttempts {
+				before := map[string]int{}
+				for n, o := range m.Subs {
+					before[n] = len(o.Dels)
+				}
+				m.deadLetter(s, i, call)
+				for n, o := range m.Subs {
+					for k := before[n]; k < len(o.Dels); k++ {
+						o.Dels[k].State = Unknown // a copy may or may not have been forwarded
+					}
+				}
+			}
+			d.State = Unknown
+			continue
+		}
 		if rel(call, d.Exp) != Before {
 			if rel(call, d.Exp) == Inside {
 				d.State = Unknown
